@@ -17,6 +17,7 @@ func init() { register("C19", checkC19) }
 func checkC19(c *Check) {
 	p := c.P
 	c.decodePrefixRules("C19.1 prefix")
+	c.accumulatorsStartEmpty("C19.1 accumulators", "decodePrefixes", "decodeAddPathPrefixes", "DecodeMPReachIPv6NextHops")
 	c.specConstants("C19.3 spec-constants", "NOTIF_CODE_UPDATE_MESSAGE_ERR", "NOTIF_SUBCODE_MALFORMED_ATTR_LIST", "NOTIF_SUBCODE_UNRECOGNIZED_WELL_KNOWN_ATTR", "NOTIF_SUBCODE_MISSING_WELL_KNOWN_ATTR", "NOTIF_SUBCODE_ATTR_FLAGS_ERR", "NOTIF_SUBCODE_ATTR_LEN_ERR", "NOTIF_SUBCODE_INVALID_ORIGIN_ATTR", "NOTIF_SUBCODE_INVALID_NEXT_HOP_ATTR", "NOTIF_SUBCODE_OPTIONAL_ATTR_ERR", "NOTIF_SUBCODE_INVALID_NETWORK_FIELD", "NOTIF_SUBCODE_MALFORMED_AS_PATH", "PATH_ATTR_MP_REACH_NLRI", "PATH_ATTR_MP_UNREACH_NLRI", "AFI_IPV4", "AFI_IPV6", "SAFI_UNICAST")
 	c.prefixLoops("C19.1 prefix-lists")
 	c.nlriWrappers("C19.2 wrappers")
@@ -61,6 +62,29 @@ func (c *Check) decodePrefixRules(rule string) {
 		{name: "IPv4 length octet > 32 => error", hook: rangeHook(isBL, isRange(33, 255)), init: fam(0), forbid: forbidAccept},
 		{name: "IPv6 length octet > 128 => error", hook: rangeHook(isBL, isRange(129, 255)), init: fam(1), forbid: forbidAccept},
 		{name: "empty input => error", init: func(a *Analysis, st *State) { st.rng[mkLen(b).Key] = isConst(0) }, forbid: forbidAccept},
+	})
+	// acceptance: a length octet within the family's range with all its
+	// address octets present is decoded (the boundaries /32, /128, the /0 entry
+	// of one octet, and the exact fit are inside these ranges)
+	mustAccept := func(rs retSite) string {
+		if !isAccept(rs) {
+			return "rejected"
+		}
+		return ""
+	}
+	lenIs := func(v6v int64, set ISet) func(a *Analysis, st *State) {
+		return func(a *Analysis, st *State) {
+			st.rng[v6.Key] = isConst(v6v)
+			st.rng[mkLen(b).Key] = set
+		}
+	}
+	c.runCases(rule, "decodePrefix", []asmCase{
+		{name: "IPv4, length octet 0..32, 5 or more octets => accepted", hook: rangeHook(isBL, isRange(0, 32)), init: lenIs(0, isRange(5, posInf)), forbid: mustAccept},
+		{name: "IPv6, length octet 0..128, 17 or more octets => accepted", hook: rangeHook(isBL, isRange(0, 128)), init: lenIs(1, isRange(17, posInf)), forbid: mustAccept},
+		{name: "IPv4 /0 in one octet => accepted", hook: rangeHook(isBL, isConst(0)), init: lenIs(0, isConst(1)), forbid: mustAccept},
+		{name: "IPv6 /0 in one octet => accepted", hook: rangeHook(isBL, isConst(0)), init: lenIs(1, isConst(1)), forbid: mustAccept},
+		{name: "IPv4 /1../8 in two octets => accepted", hook: rangeHook(isBL, isRange(1, 8)), init: lenIs(0, isConst(2)), forbid: mustAccept},
+		{name: "IPv6 /121../128 in exactly 17 octets => accepted", hook: rangeHook(isBL, isRange(121, 128)), init: lenIs(1, isConst(17)), forbid: mustAccept},
 	})
 	// field ends inside the entry => error: len(rest) < ceil(bl/8)
 	for _, fv := range []int64{0, 1} {
@@ -179,6 +203,79 @@ func (c *Check) prefixLoops(rule string) {
 			}
 		}
 		c.require(okS, rule, s.fn, "whole field consumed", p.Pos(fn.Pos()), "a non-nil list is returned only after the field is consumed completely")
+		// a field of one octet (plain) / five octets (add-path) is an entry,
+		// not "nothing": it is decoded; shorter add-path fields are errors
+		first := int64(1)
+		if s.addPath {
+			first = 5
+		}
+		{
+			d := NewAnalysis(p, fn)
+			d.AtomHook = rangeHook(isDPErr, isConst(0))
+			d.Init = func(a *Analysis, st *State) { st.rng[mkLen(paramExpr(fn, 0)).Key] = isConst(first) }
+			// the first iteration is kept apart from the later ones (a tag set
+			// on the edge entering the loop, cleared on its back edge)
+			d.AfterFlow = func(from, to *ssa.BasicBlock, st *State) {
+				if to.Parent() != fn {
+					return
+				}
+				isHead := false
+				for _, pr := range to.Preds {
+					if to.Dominates(pr) {
+						isHead = true
+					}
+				}
+				if !isHead {
+					return
+				}
+				if to.Dominates(from) {
+					st.tags["first"] = 0
+				} else {
+					st.tags["first"] = 1
+				}
+			}
+			d.Run()
+			okF := len(d.Returns) > 0 && len(d.Undecided) == 0
+			entered := false
+			for _, r := range d.Returns {
+				if r.State.tags["first"] != 1 {
+					// before the loop: "empty field" for a field that has an entry
+					if _, inLoopOrAfter := r.State.tags["first"]; !inLoopOrAfter {
+						okF = false
+					}
+					continue
+				}
+				// a way out during the first iteration: only through the entry's decoder
+				if !r.State.must["call:decodePrefix"] {
+					okF = false
+				}
+				entered = true
+			}
+			for in, sts := range d.At {
+				if ci, isC := in.(ssa.CallInstruction); isC && p.calleeDesc(ci) == "builtin:append" {
+					for _, st := range sts {
+						if st.tags["first"] == 1 {
+							entered = true
+						}
+					}
+				}
+			}
+			okF = okF && entered
+			c.require(okF, rule, s.fn, fmt.Sprintf("field of %d octet(s) is one entry", first), p.Pos(fn.Pos()),
+				"the shortest possible entry (a /0 prefix) is decoded and appended, not skipped as an empty field or refused")
+			if s.addPath {
+				e := NewAnalysis(p, fn)
+				e.Init = func(a *Analysis, st *State) { st.rng[mkLen(paramExpr(fn, 0)).Key] = isRange(1, 4) }
+				e.Run()
+				okE := len(e.Returns) > 0
+				for _, r := range e.Returns {
+					if v, isC := r.State.nonNil(r.Results[1]).IsConst(); !isC || v != 1 || !r.Results[0].IsNil() {
+						okE = false
+					}
+				}
+				c.require(okE, rule, s.fn, "1..4 octets => error", p.Pos(fn.Pos()), "a field too short for a path identifier and a length octet is an error, not an empty list")
+			}
+		}
 		// order-preserving unconditional append of each decoded entry
 		apps := p.callsIn(fn, descIs("builtin:append"))
 		okA := len(apps) == 1 && inLoop(apps[0].Block()) && everyIteration(apps[0].(ssa.Instruction))
